@@ -27,8 +27,26 @@ func runC20(e *Engine, r *Report, tier string) {
 	r.Rule("R2", "panic-capable sites in stateless validation are discharged", 10, "sites in the validation closure")
 	r.Rule("R3", "precompile arguments only through ParseMethodArgs -> Validate()", 20, "implementers of contract.PrecompileMethod")
 	r.Rule("R4", "ante handler recovers panics", 1, "")
+	r.Rule("R6", "a search result (-1 on a miss) is never used as a slice bound or index without a test", 0, "")
 	r.Rule("R5", "parallel arrays of a decoded message / argument struct are indexed together only if its validator establishes equal lengths unconditionally", 1, "index sites bounded by another field's length")
 	e.c20ParallelArrays(r)
+	// R6: decoding helpers (types, contract, precompile and ante packages — the code that sees call data and message
+	// fields before any state is read)
+	nR6 := 0
+	e.sentinelIndexSites(func(p string) bool {
+		return strings.HasSuffix(p, "/types") || strings.Contains(p, "/contract") || strings.Contains(p, "/precompile") || strings.Contains(p, "/ante")
+	}, func(fn *ssa.Function, at ssa.Instruction, c *ssa.Call, ok bool) {
+		nR6++
+		ck := e.FnKey(fn) + " " + callName(c) + " as bound"
+		if ok {
+			r.Ok("R6", ck, e.InstrPos(at), "the search result is compared before it is used as a bound")
+		} else {
+			r.Fail("R6", ck, e.InstrPos(at), "the result of "+callName(c)+" is used as a slice bound / index without any test: it is -1 when nothing is found (e.g. a 32-byte target without a zero byte), and the slice expression panics")
+		}
+	})
+	if nR6 == 0 {
+		r.Ok("R6", "search results used as bounds", "", "none in the decoding layer")
+	}
 
 	// ---------- R1 ----------
 	var checker *ssa.Function
